@@ -48,7 +48,9 @@ def guarded (env : VEnv) : Bool :=
 `rankOf env : NodeId → Nat` that strictly decreases along every in-place edge.  The function is
 computed (longest-path relaxation), but `ranked env = true` IS the statement that it decreases, so
 nothing has to be proved about the computation.  JSV/Proofs/Defined.lean derives from it that the
-Spec (hence the evaluator) is defined with fuel `(depth of the instance + 1) * (maxRank env + 1)`. -/
+Spec (hence the evaluator) is defined with fuel `(depth of the instance + 1) * (maxRank env + 1)`.
+The certificate is complete: under `closed`, `guarded env = ranked env` (JSV/Proofs/DefinedGuarded.lean,
+`C01.guarded_iff_ranked`). -/
 
 /-- the schemas `validate` may call itself on with a CHILD of the instance (array items, member
     values, property names): the instance-descending applicators of both drafts -/
